@@ -1,7 +1,8 @@
 ----------------------------- MODULE Thumb_MC -----------------------------
 (* Idiom M for Thumb.tla and Arm32.tla: laws of the two ISA models, checked  *)
 (* exhaustively on small domains before the models judge ppci.               *)
-(*  family "t16"  every 16-bit pattern (65 536): exactly one format of table *)
+(*  family "t16"  every 16-bit pattern (65 536; a third when ~Deep): exactly  *)
+(*                one format of table                                        *)
 (*                A6-1 matches; a defined instruction re-encodes to itself   *)
 (*  family "t32"  first x second halfword samples of the 32-bit encodings    *)
 (*  family "tln"  printed Thumb lines (every form x registers x labelled     *)
@@ -20,7 +21,9 @@ CONSTANTS Deep, Fams
 (* idiom G: labelled boundary values of a range <<lo, hi, align>>            *)
 Labelled(lo, hi, a) ==
     {lo - a, lo - 1, lo, lo + 1, lo + a, -a, -1, 0, 1, a, 2 * a, 3 * a, hi - a, hi - 1, hi, hi + 1, hi + a, 2 * hi + 2 * a,
-     ((lo + hi) \div (2 * a)) * a, ((lo + hi) \div (2 * a)) * a + a, -(hi + a), -(2 * hi + 2 * a)}
+     ((lo + hi) \div (2 * a)) * a, ((lo + hi) \div (2 * a)) * a + a, -(hi + a), -(2 * hi + 2 * a),
+     (hi \div (2 * a)) * a, (hi \div (2 * a)) * a + a, (lo \div (2 * a)) * a, (lo \div (2 * a)) * a - a,    \* half way: the two top bits differ
+     (hi \div (4 * a)) * a, (lo \div (4 * a)) * a, (hi \div (4 * a)) * 3 * a, (lo \div (4 * a)) * 3 * a}
 Inside(lo, hi, a, v) == lo <= v /\ v <= hi /\ v % a = 0
 Row(r) == [mns |-> SetToSeq(r[1]), pat |-> r[2], lo |-> r[3], hi |-> r[4], align |-> r[5],
            vals |-> SetToSeq({[v |-> v, inside |-> Inside(r[3], r[4], r[5], v)] : v \in Labelled(r[3], r[4], r[5])})]
@@ -142,7 +145,9 @@ AwLo == {0, 1, 16, 17, 144, 145, 176, 177, 208, 240, 241, 61440, 61441, 61444, 4
 
 Init == fam = "none" /\ pick = None
 PickFam == fam = "none" /\ fam' \in Fams /\ pick' = None
-PickT16 == fam = "t16" /\ pick = None /\ UNCHANGED fam /\ \E hi \in 0..255 : pick' = [k |-> "t16-", hi |-> hi]
+\* quick configuration: every third high byte (all low bytes): every value of the opcode bits 15:10 occurs
+T16Hi == IF Deep THEN 0..255 ELSE {h \in 0..255 : h % 3 = 0}
+PickT16 == fam = "t16" /\ pick = None /\ UNCHANGED fam /\ \E hi \in T16Hi : pick' = [k |-> "t16-", hi |-> hi]
 PickT16b == fam = "t16" /\ pick.k = "t16-" /\ UNCHANGED fam /\ \E lo \in 0..255 : pick' = [k |-> "t16", h |-> 256 * pick.hi + lo]
 PickT32 == fam = "t32" /\ pick = None /\ UNCHANGED fam /\ \E h1 \in T32Hi, h2 \in T32Lo : pick' = [k |-> "t32", h1 |-> h1, h2 |-> h2]
 PickTln == fam = "tln" /\ pick = None /\ UNCHANGED fam /\ \E ln \in TLines : pick' = [k |-> "tln", ln |-> ln]
